@@ -122,7 +122,13 @@ namespace detail
 		else if(glm::isnan(x))
 			return ~0u;
 		else if(glm::isinf(x))
-			return 0x1Fu << 6u;
+			return x > 0.0f ? 0x1Fu << 6u : 0u;
+
+		// Unsigned format: clamp to [0, largest finite value]; anything below the smallest exponent becomes zero
+		if(x < 3.0517578125e-05f) // 2^-15
+			return 0u;
+		if(x > 65024.0f) // (1 + 63/64) * 2^15
+			return (0x1Eu << 6u) | 0x3Fu;
 
 		uint Pack = 0u;
 		memcpy(&Pack, &x, sizeof(Pack));
@@ -150,7 +156,13 @@ namespace detail
 		else if(glm::isnan(x))
 			return ~0u;
 		else if(glm::isinf(x))
-			return 0x1Fu << 5u;
+			return x > 0.0f ? 0x1Fu << 5u : 0u;
+
+		// Unsigned format: clamp to [0, largest finite value]; anything below the smallest exponent becomes zero
+		if(x < 3.0517578125e-05f) // 2^-15
+			return 0u;
+		if(x > 64512.0f) // (1 + 31/32) * 2^15
+			return (0x1Eu << 5u) | 0x1Fu;
 
 		uint Pack = 0;
 		memcpy(&Pack, &x, sizeof(Pack));
